@@ -710,6 +710,249 @@ theorem server_merge (σ : Sys) (a b : Bytes) (rest : List Ev) (hn : hasMsg (fee
   simp only [hasMsg_append, hn, Bool.false_or, List.map_append, List.append_assoc]
   cases hm : hasMsg (feed sizeR (feed sizeR σ.c a).1 b).2 <;> simp
 
+/-! ### `Causal` is derived, and pipelined requests are answered in order -/
+
+private theorem hasMsg_eq (o : List Out) : hasMsg o = o.any isMsg := by
+  simp only [hasMsg]; congr 1
+
+/-- a step that emits a message emits exactly that and goes to `wait` -/
+private theorem step_msg {sizeOf : List Bytes → Option Size} {p p' : Phase} {b r : Bytes} {o : List Out}
+    (h : step sizeOf p b = some (o, p', r)) :
+    (o.filter isMsg = [] ∧ (p ≠ .wait → p' ≠ .wait)) ∨ (p' = .wait ∧ ∃ m, o = [m] ∧ isMsg m = true) := by
+  cases p with
+  | head =>
+    simp only [step] at h
+    cases he : extractLines b with
+    | more => simp [he] at h
+    | blank rest => simp [he] at h; obtain ⟨rfl, rfl, _⟩ := h; left; simp
+    | lines ls rest =>
+      simp only [he] at h
+      split at h <;> simp at h <;> obtain ⟨rfl, rfl, _⟩ := h
+      · left; simp [isMsg]
+      · right; exact ⟨rfl, _, rfl, rfl⟩
+      all_goals (left; simp)
+  | cl m acc hd =>
+    simp only [step] at h
+    split at h
+    · simp at h
+    · split at h <;> simp at h <;> obtain ⟨rfl, rfl, _⟩ := h
+      · right; exact ⟨rfl, _, rfl, rfl⟩
+      · left; simp
+  | untilEof acc hd =>
+    simp only [step] at h
+    split at h <;> simp at h
+    obtain ⟨rfl, rfl, _⟩ := h; left; simp
+  | chunkSize acc hd =>
+    simp only [step] at h
+    cases hf : findCrlf b with
+    | none => simp [hf] at h
+    | some idx =>
+      simp only [hf] at h
+      split at h <;> simp at h <;> obtain ⟨rfl, rfl, _⟩ := h <;> (left; simp [isMsg])
+  | chunkData m acc hd =>
+    simp only [step] at h
+    split at h
+    · simp at h
+    · split at h <;> simp at h <;> obtain ⟨rfl, rfl, _⟩ := h <;> (left; simp)
+  | chunkDiscard e es acc hd =>
+    simp only [step] at h
+    cases b with
+    | nil => simp at h
+    | cons c rest =>
+      simp only at h
+      split at h
+      · simp at h; obtain ⟨rfl, rfl, _⟩ := h; left; simp [isMsg]
+      · split at h <;> simp at h <;> obtain ⟨rfl, rfl, _⟩ := h <;> (left; simp)
+  | chunkTrailer acc hd =>
+    simp only [step] at h
+    cases he : extractLines b with
+    | more => simp [he] at h
+    | blank rest => simp [he] at h; obtain ⟨rfl, rfl, _⟩ := h; right; exact ⟨rfl, _, rfl, rfl⟩
+    | lines ls rest => simp [he] at h; obtain ⟨rfl, rfl, _⟩ := h; left; simp [isMsg]
+  | wait => simp [step] at h
+  | closed =>
+    simp only [step] at h
+    split at h <;> simp at h
+    obtain ⟨rfl, rfl, _⟩ := h; left; simp
+
+/-- the drain loop emits at most one message, as its last output, and then waits; without a message it does not start waiting -/
+private theorem drainF_msg (sizeOf : List Bytes → Option Size) : ∀ (f : Nat) (p : Phase) (b : Bytes),
+    ((drainF sizeOf f p b).1.filter isMsg = [] ∧ (p ≠ .wait → (drainF sizeOf f p b).2.1 ≠ .wait)) ∨
+    ((drainF sizeOf f p b).2.1 = .wait ∧ ∃ m, (drainF sizeOf f p b).1.filter isMsg = [m])
+  | 0, p, b => by left; simp [drainF]
+  | f + 1, p, b => by
+    simp only [drainF]
+    cases hs : step sizeOf p b with
+    | none => left; simp
+    | some t =>
+      obtain ⟨o, p', r⟩ := t
+      simp only
+      rcases step_msg hs with ⟨ho, hp⟩ | ⟨hp, m, ho, hm⟩
+      · rcases drainF_msg sizeOf f p' r with ⟨h1, h2⟩ | ⟨h1, m, h2⟩
+        · left; exact ⟨by simp [List.filter_append, ho, h1], fun hne => h2 (hp hne)⟩
+        · right; exact ⟨h1, m, by simp [List.filter_append, ho, h2]⟩
+      · subst hp
+        have hw : drainF sizeOf f .wait r = ([], .wait, r) := by cases f <;> simp [drainF, step]
+        right; rw [hw]; subst ho
+        exact ⟨rfl, m, by simp [hm]⟩
+
+private theorem feed_msg (sizeOf : List Bytes → Option Size) (s : St) (d : Bytes) :
+    ((feed sizeOf s d).2.filter isMsg = [] ∧ hasMsg (feed sizeOf s d).2 = false ∧ (s.phase ≠ .wait → (feed sizeOf s d).1.phase ≠ .wait)) ∨
+    ((feed sizeOf s d).1.phase = .wait ∧ hasMsg (feed sizeOf s d).2 = true ∧ ∃ m, (feed sizeOf s d).2.filter isMsg = [m]) := by
+  unfold feed
+  split
+  · left; simp [hasMsg]
+  · simp only [drain]
+    rcases drainF_msg sizeOf (s.buf ++ d).length s.phase (s.buf ++ d) with ⟨h1, h2⟩ | ⟨h1, m, h2⟩
+    · left
+      refine ⟨h1, ?_, h2⟩
+      rw [hasMsg_eq]
+      have : ∀ (l : List Out), l.filter isMsg = [] → l.any isMsg = false := by
+        intro l hl; simpa [List.filter_eq_nil_iff] using hl
+      exact this _ h1
+    · right
+      refine ⟨h1, ?_, m, h2⟩
+      rw [hasMsg_eq]
+      have hm : m ∈ (drainF sizeOf (s.buf ++ d).length s.phase (s.buf ++ d)).1.filter isMsg := by rw [h2]; simp
+      have := List.mem_filter.mp hm
+      exact List.any_eq_true.mpr ⟨m, this.1, this.2⟩
+
+private theorem release_msg (sizeOf : List Bytes → Option Size) (buf : Bytes) :
+    ((release sizeOf ⟨.wait, buf⟩).2.filter isMsg = [] ∧ hasMsg (release sizeOf ⟨.wait, buf⟩).2 = false) ∨
+    ((release sizeOf ⟨.wait, buf⟩).1.phase = .wait ∧ hasMsg (release sizeOf ⟨.wait, buf⟩).2 = true ∧
+      ∃ m, (release sizeOf ⟨.wait, buf⟩).2.filter isMsg = [m]) := by
+  simp only [release, drain]
+  rcases drainF_msg sizeOf buf.length .head buf with ⟨h1, _⟩ | ⟨h1, m, h2⟩
+  · left
+    refine ⟨h1, ?_⟩
+    rw [hasMsg_eq]; simpa [List.filter_eq_nil_iff] using h1
+  · right
+    refine ⟨h1, ?_, m, h2⟩
+    rw [hasMsg_eq]
+    have hm : m ∈ (drainF sizeOf buf.length .head buf).1.filter isMsg := by rw [h2]; simp
+    have := List.mem_filter.mp hm
+    exact List.any_eq_true.mpr ⟨m, this.1, this.2⟩
+
+private theorem msgsOf_append (a b : List SysOut) : msgsOf (a ++ b) = msgsOf a ++ msgsOf b := by
+  induction a with
+  | nil => rfl
+  | cons x xs ih => cases x <;> simp only [List.cons_append, msgsOf, ih] <;> split <;> simp
+
+private theorem msgsOf_request (o : List Out) : msgsOf (o.map .request) = (o.filter isMsg).map fun _ => true := by
+  induction o with
+  | nil => rfl
+  | cons x xs ih => simp only [List.map_cons, msgsOf, ih, List.filter_cons]; split <;> simp
+
+private theorem msgsOf_response (o : List Out) : msgsOf (o.map .response) = (o.filter isMsg).map fun _ => false := by
+  induction o with
+  | nil => rfl
+  | cons x xs ih => simp only [List.map_cons, msgsOf, ih, List.filter_cons]; split <;> simp
+
+private theorem altEnd_append : ∀ (a b : List Bool) (t t' : Bool), altEnd t a = some t' → altEnd t (a ++ b) = altEnd t' b
+  | [], b, t, t', h => by simp [altEnd] at h; subst h; rfl
+  | x :: xs, b, t, t', h => by
+    simp only [altEnd] at h
+    simp only [List.cons_append, altEnd]
+    split at h
+    · rename_i hx; simp only [hx, ↓reduceIte]; exact altEnd_append xs b _ _ h
+    · simp at h
+
+/-- "the next completed message will be a request" = the upstream reader is idle -/
+def idle (σ : Sys) : Bool := decide (σ.c.phase = .wait)
+
+private theorem expect_not_wait (c : St) : (expect c).phase ≠ .wait := by
+  unfold expect
+  cases h : c.phase <;> simp [h]
+
+/-- one step preserves the invariant and emits an alternating piece -/
+private theorem sysStep_alt (σ : Sys) (ev : Ev) (hi : Inv σ) (he : ∀ e, ev = .server e → σ.c.phase ≠ .wait) :
+    Inv (sysStep sizeQ sizeR σ ev).1 ∧
+    altEnd (idle σ) (msgsOf (sysStep sizeQ sizeR σ ev).2) = some (idle (sysStep sizeQ sizeR σ ev).1) := by
+  obtain ⟨s, c⟩ := σ
+  cases ev with
+  | client d =>
+    simp only [sysStep, msgsOf_request]
+    by_cases hw : s.phase = .wait
+    · obtain ⟨ph, buf⟩ := s
+      simp only at hw; subst hw
+      rw [wait_buffers]
+      have hm0 : hasMsg ([] : List Out) = false := rfl
+      simp only [hm0, cond_false, List.filter_nil, List.map_nil, altEnd, idle]
+      exact ⟨fun _ => rfl, trivial⟩
+    · have hcw : c.phase = .wait := by
+        by_cases hc : c.phase = .wait
+        · exact hc
+        · exact absurd (hi hc) hw
+      rcases feed_msg sizeQ s d with ⟨h1, h2, h3⟩ | ⟨h1, h2, m, h3⟩
+      · simp only [h1, h2, cond_false, List.map_nil, altEnd, idle]
+        exact ⟨fun hc => absurd hcw hc, trivial⟩
+      · simp only [h3, h2, cond_true, List.map_cons, List.map_nil, altEnd, idle, hcw, decide_true, ↓reduceIte, Bool.not_true]
+        refine ⟨fun _ => h1, ?_⟩
+        have := expect_not_wait c
+        simp [this]
+  | server e =>
+    have hcn := he e rfl
+    have hsw := hi hcn
+    obtain ⟨ph, buf⟩ := s
+    simp only at hsw; subst hsw
+    simp only [sysStep]
+    rcases feed_msg sizeR c e with ⟨h1, h2, h3⟩ | ⟨h1, h2, m, h3⟩
+    · simp only [h2, cond_false, msgsOf_response, h1, List.map_nil, altEnd, idle]
+      refine ⟨fun _ => rfl, ?_⟩
+      have := h3 hcn
+      simp [hcn, this]
+    · simp only [h2, cond_true, msgsOf_append, msgsOf_response, msgsOf_request, h3, List.map_cons, List.map_nil]
+      have hidle : idle ⟨⟨.wait, buf⟩, c⟩ = false := by simp [idle, hcn]
+      rw [hidle]
+      rcases release_msg sizeQ buf with ⟨g1, g2⟩ | ⟨g1, g2, m2, g3⟩
+      · simp only [g1, g2, cond_false, List.map_nil, List.append_nil, altEnd, ↓reduceIte, Bool.not_false, idle, h1, decide_true]
+        exact ⟨fun hc => absurd h1 hc, trivial⟩
+      · simp only [g3, g2, cond_true, List.map_cons, List.map_nil, List.cons_append, List.nil_append, altEnd, ↓reduceIte,
+          Bool.not_false, Bool.not_true, idle]
+        refine ⟨fun _ => g1, ?_⟩
+        have := expect_not_wait (feed sizeR c e).1
+        simp [this]
+
+/-- **causal_of_expected**: `Causal` need not be assumed — it follows from the invariant `Inv` (which holds initially and is
+    preserved) and the environment's side of causality alone: the origin sends only while a request of it is unanswered -/
+theorem causal_of_expected : ∀ (evs : List Ev) (σ : Sys), Inv σ → Expected sizeQ sizeR σ evs → Causal sizeQ sizeR σ evs
+  | [], _, _, _ => trivial
+  | .client d :: rest, σ, hi, he => by
+    have := (sysStep_alt sizeQ sizeR σ (.client d) hi (fun e h => by cases h)).1
+    exact causal_of_expected rest _ this he
+  | .server e :: rest, σ, hi, he => by
+    obtain ⟨hc, hr⟩ := he
+    have := (sysStep_alt sizeQ sizeR σ (.server e) hi (fun e' h => by cases h; exact hc)).1
+    exact ⟨hi hc, causal_of_expected rest _ this hr⟩
+
+theorem inv_initial : Inv ⟨⟨.head, []⟩, ⟨.wait, []⟩⟩ := fun h => absurd rfl h
+
+/-- **answered_in_order**: "pipelined requests are answered in order, each response matched to its own request" — in every run
+    the completed messages alternate request, response, request, response …: the k-th relayed response comes after the k-th
+    forwarded request and before the (k+1)-th, whatever the segmentation and interleaving -/
+theorem answered_in_order : ∀ (evs : List Ev) (σ : Sys), Inv σ → Expected sizeQ sizeR σ evs →
+    altEnd (idle σ) (msgsOf (sysRun sizeQ sizeR σ evs).2) = some (idle (sysRun sizeQ sizeR σ evs).1)
+  | [], σ, _, _ => by simp [sysRun, msgsOf, altEnd]
+  | ev :: rest, σ, hi, he => by
+    have hev : ∀ e, ev = .server e → σ.c.phase ≠ .wait := by
+      intro e h; subst h; exact he.1
+    have hrest : Expected sizeQ sizeR (sysStep sizeQ sizeR σ ev).1 rest := by
+      cases ev with
+      | client d => exact he
+      | server e => exact he.2
+    obtain ⟨hi', ha⟩ := sysStep_alt sizeQ sizeR σ ev hi hev
+    have ih := answered_in_order rest _ hi' hrest
+    simp only [sysRun, msgsOf_append]
+    rw [altEnd_append _ _ _ _ ha, ih]
+
+/-- merged schedules without assuming `Causal` -/
+theorem merged_schedule_independent' (σ : Sys) (a b : List Ev) (hi : Inv σ)
+    (ha : Expected sizeQ sizeR σ a) (hb : Expected sizeQ sizeR σ b)
+    (hc : clientBytes a = clientBytes b) (hs : serverEvs a = serverEvs b) :
+    sysRun sizeQ sizeR σ a = sysRun sizeQ sizeR σ b :=
+  merged_schedule_independent sizeQ sizeR σ a b (causal_of_expected sizeQ sizeR a σ hi ha)
+    (causal_of_expected sizeQ sizeR b σ hi hb) hc hs
+
 /-- non-vacuity: a pipelined client stream and two responses, interleaved causally in two different ways -/
 example :
     let σ : Sys := ⟨⟨.head, []⟩, ⟨.wait, []⟩⟩
